@@ -227,4 +227,60 @@ def step (E : Env) (c : TraitCfg) (s : St) : Op → Option Exc × St
   | .del name key => delattrTrait E c s name key
   | .get name key => getattr E c s name key
 
+/-! ## `validate_trait_tuple_check` (ctraits.c: the element-wise tuple validator)
+
+A validator that builds a NEW result.  The ledger here is the list of
+reference-count events on the ITEM objects: the new reference every element
+validator hands back, the `Py_INCREF`s / `Py_DECREF`s of the function itself,
+and - when the partly built tuple is dropped on failure - the release of
+every slot filled so far.  `PyTuple_SET_ITEM` steals: it is no event. -/
+
+inductive Ev where
+  | inc (id : Id)
+  | dec (id : Id)
+  deriving DecidableEq, Repr
+
+/-- Net reference-count change of object `id` over a list of events. -/
+def net (evs : List Ev) (id : Id) : Int :=
+  ((evs.filter (· = .inc id)).length : Int) - ((evs.filter (· = .dec id)).length : Int)
+
+/-- Outcome: `none` = validation failed (NULL); `some none` = the value tuple
+itself is returned (with its own new reference); `some (some l)` = a new tuple
+with items `l`. -/
+structure TupleOut where
+  result : Option (Option (List Id))
+  exc : Option Exc := none
+  evs : List Ev
+  deriving Repr
+
+/-- The loop, from index `i` with `bs` the items still to do and `t` the new
+tuple if one has been started (its filled slots, in order).  `ev i b` is the
+element validator of position `i` (`itrait->validate`, or the plain
+`Py_INCREF` when the element trait has none): it returns a NEW reference. -/
+def tupleLoop (ev : Nat → Id → Except Exc Id) (value : List Id) :
+    Nat → List Id → Option (List Id) → List Ev → TupleOut
+  | _, [], t, evs => ⟨some t, none, evs⟩
+  | i, b :: bs, t, evs =>
+    match ev i b with
+    | .error e =>
+      -- aitem == NULL:  Py_XDECREF(tuple); return NULL;   (a TraitError is cleared, anything else propagates)
+      ⟨none, some e, evs ++ (t.getD []).map .dec⟩
+    | .ok a =>
+      let evs1 := evs ++ [.inc a]
+      match t with
+      | some l =>
+        -- PyTuple_SET_ITEM(tuple, i, aitem);
+        tupleLoop ev value (i + 1) bs (some (l ++ [a])) evs1
+      | none =>
+        if a ≠ b then
+          -- tuple = PyTuple_New(n); for j < i: bitem = value[j]; Py_INCREF(bitem); SET_ITEM(tuple, j, bitem);
+          -- SET_ITEM(tuple, i, aitem);
+          tupleLoop ev value (i + 1) bs (some (value.take i ++ [a])) (evs1 ++ (value.take i).map .inc)
+        else
+          -- Py_DECREF(aitem);
+          tupleLoop ev value (i + 1) bs none (evs1 ++ [.dec a])
+
+def tupleCheck (ev : Nat → Id → Except Exc Id) (value : List Id) : TupleOut :=
+  tupleLoop ev value 0 value none []
+
 end TraitsVerif.Model.RefLedger
